@@ -754,7 +754,7 @@ func shrinkC17(scAny any) []any {
 
 func init() {
 	Register(&Prop{ID: "C17", Level: "exploration", Race: true,
-		Rule: "one case = 2-6 clients opening connections at drawn instants from 3 addresses and each performing 1-6 of NULL / MNT+GETATTR / LOOKUP+READDIR calls, idle periods of 1 ms-700 s, closes and abrupt resets right after a call was sent; in 25% of runs 1-6 transient accept errors injected into the listener at drawn instants, against a server with MaxConnections 1-4 and IdleTimeout from {default (5 min), 1 ns, 1 ms, 200 ms, 1 s, 5 s, 40 s, 90 s} (in 20% of those with >= 1 s lowered to 200 ms at runtime, idle periods then start after the reaper has had one old check interval to notice), AllowedIPs empty or excluding one of the three client addresses (30%), started through NewServer+Listen or through AbsfsNFS.Export, 0-2 admin actors issuing Stop / Close / Unexport (also repeated and concurrently) at drawn instants, 0-2 backend calls stalled for 5 ms-7 s, every lock/channel/select/network interleaving decided by the seeded scheduler (random, PCT, sticky; 30% sequential), also built with -race; monitors: (a) connections answered at least once and closed on neither side never exceed MaxConnections, (b) a client outside AllowedIPs is never served and never stays counted; connCount equals the tracked set, stays within 0..MaxConnections, covers every served open connection and is 0 once all clients have closed, (c) an answered connection idle for more than 2*IdleTimeout+100 ms has been closed by the server; an active one is not dropped, (d) after Stop returns nil no goroutine created in server.go is alive, the count is 0, later calls are never answered and the listener refuses; Stop only times out when a backend call is stalled beyond its 5 s grace, (e) after Close/Unexport of an exported server the handle table and both caches are empty (on return when nothing is stalled, and at quiescence), repeating Stop/Close/Unexport returns nil, and once one of them has returned no backend call begins any more (no request is still being served, also under concurrent Close/Unexport calls), (f) no panic, no server goroutine alive at the end of the run, (g) bounded liveness after the faults: when nobody stopped the server a fresh connection is accepted and answered; non-trivial = at least two clients; distinct by event digest",
+		Rule: "one case = 2-6 clients opening connections at drawn instants from 3 addresses and each performing 1-6 of NULL / MNT+GETATTR / LOOKUP+READDIR calls, idle periods of 1 ms-700 s, closes and abrupt resets right after a call was sent; in 25% of runs 1-6 transient accept errors injected into the listener at drawn instants, against a server with MaxConnections 1-4 and IdleTimeout from {default (5 min), 1 ns, 1 ms, 200 ms, 1 s, 5 s, 40 s, 90 s} (in 20% of those with >= 1 s lowered to 200 ms at runtime, idle periods then start after the reaper has had one old check interval to notice), AllowedIPs empty or excluding one of the three client addresses (30%), started through NewServer+Listen or through AbsfsNFS.Export, 0-2 admin actors issuing Stop / Close / Unexport (also repeated and concurrently) at drawn instants, 0-2 backend calls stalled for 5 ms-7 s, every lock/channel/select/network interleaving decided by the seeded scheduler (random, PCT, sticky; 30% sequential), also built with -race; monitors: (a) connections answered at least once and closed on neither side never exceed MaxConnections, (b) a client outside AllowedIPs is never served and never stays counted; connCount equals the tracked set, stays within 0..MaxConnections, covers every served open connection and is 0 once all clients have closed, (c) an answered connection idle for more than 2*IdleTimeout+100 ms has been closed by the server; an active one is not dropped, (d) after Stop returns nil no goroutine created in server.go is alive, the count is 0, later calls are never answered and the listener refuses; Stop only times out when a backend call is stalled beyond its 5 s grace, (e) after Close/Unexport of an exported server the handle table and both caches are empty (on return when nothing is stalled, and at quiescence), repeating Stop/Close/Unexport returns nil, and once one of them has returned no backend call begins any more (no request is still being served, also under concurrent Close/Unexport calls), (f) no panic, no server goroutine alive at the end of the run, (g) bounded liveness after the faults: when nobody stopped the server a fresh connection is accepted and answered; 10% of the cases are the slow-request-after-a-quiet-spell motif (IdleTimeout 1 s or 5 s, a connection silent for 60-95% of it, then a call the backend holds for 60% of it); monitor (h): a registered connection is not closed between 50 ms after a call was sent on it and IdleTimeout-20 ms after that without the call being answered; non-trivial = at least two clients; distinct by event digest",
 		Gen:  genC17, New: func() any { return &C17Scn{} }, Run: runC17, Shrink: shrinkC17,
 		Real:    []string{"server.go accept loop, connection registry, idle reaper, Stop", "absnfs.go Close, operations.go Unexport/Export", "rpc/nfs handlers, worker pool, caches, handle table"},
 		Stubbed: seqStubbed})
